@@ -1,5 +1,7 @@
 """exp2python's Python-keyword escaping list and import preamble -> Generated/GenPyGen.lean
 
+  pythonHardKeywords   Python's own keyword.kwlist (lower-case members), from the interpreter that runs the check
+  expressReserved  the reserved words of stepcode's EXPRESS scanner (keywords[] of src/express/lexact.c)
   pythonKeywords   the `keyword_list[]` of is_python_keyword() (src/exp2python/src/classes_python.c)
   escapesStems     is_python_keyword compares the word without its trailing underscores (strncmp over the stem) instead of strcmp
   xorSkipsParentheses / bodyEscapesKeywords   the expression printer for derived attributes and WHERE rules (ATTRIBUTE_INITIALIZER*__out,
@@ -195,10 +197,27 @@ def extract(repo):
         rep_incl = True
     else:
         raise ValueError("LOOPpyout: the range() of an increment control is written in neither of the two modelled ways")
+    # ---- the specification's keyword list, independent of exp2python: Python's own hard keywords (of the interpreter that runs
+    # the check; the lower-case ones - EXPRESS identifiers are folded to lower case) and the reserved words of stepcode's EXPRESS scanner
+    import keyword
+    hard = sorted(k for k in keyword.kwlist if k == k.lower())
+    lx = open(os.path.join(repo, "src/express/lexact.c")).read()
+    mt = re.search(r"\}\s*keywords\s*\[\s*\]\s*=\s*\{(.*?)\n\};", lx, re.S)
+    if not mt:
+        raise ValueError("lexact.c: the keyword table `keywords[]` was not found")
+    reserved = sorted({w.lower() for w in re.findall(r'\{\s*"([A-Za-z_0-9]+)"\s*,\s*TOK_\w+\s*\}', mt.group(1))})
+    if len(reserved) < 100 or "entity" not in reserved or "end_schema" not in reserved:
+        raise ValueError("lexact.c: the keyword table was not read completely (%d words)" % len(reserved))
     lst = ", ".join('"%s"' % i for i in items)
     out = f"""-- GENERATED by tools/extract.d/genpy.py from src/exp2python/src/classes_python.c, classes_wrapper_python.cc
 namespace StepModel.Generated
 
+/-- Python's hard keywords (`keyword.kwlist` of the interpreter that runs the check), lower-case members only: EXPRESS
+identifiers are folded to lower case, so `False None True` cannot be emitted -/
+def pythonHardKeywords : List String := [{", ".join('"%s"' % k for k in hard)}]
+/-- the reserved words of stepcode's EXPRESS scanner (`keywords[]` of src/express/lexact.c), lower case: none of them can be
+an identifier of a schema -/
+def expressReserved : List String := [{", ".join('"%s"' % k for k in reserved)}]
 /-- `keyword_list[]` of `is_python_keyword()`: identifiers that get a trailing underscore -/
 def pythonKeywords : List String := [{lst}]
 /-- `is_python_keyword` compares the word without its trailing underscores (`class_`, `class__` are escaped like `class`);
